@@ -113,8 +113,13 @@ TCPStream& TCPStream::operator=(const TCPStream& rhs) {
     fin_sent_ = rhs.fin_sent_;
     client_payload_ = rhs.client_payload_;
     server_payload_ = rhs.server_payload_;
-    client_frags_ = clone_fragments(rhs.client_frags_);
-    server_frags_ = clone_fragments(rhs.server_frags_);
+    if (this != &rhs) {
+        // Release the segments we were buffering before copying rhs' ones
+        free_fragments(client_frags_);
+        free_fragments(server_frags_);
+        client_frags_ = clone_fragments(rhs.client_frags_);
+        server_frags_ = clone_fragments(rhs.server_frags_);
+    }
     return* this;
 }
 
